@@ -43,6 +43,11 @@ def service_case(draw, auto):
                                span=draw(netgen.span_entry(max_length=150, eol=0))))
     chain_kw = {'spans': (1, 2), 'fiber_kw': {'lumped': False, 'per_freq_loss': False, 'overrides': True},
                 'length_km': None}
+    # per-channel impairments: fibres with a dispersion slope and a CD penalty table that ends inside the range of CD values
+    # the channels reach (placed after the probe run, like the thresholds): some channels are outside the table
+    cd_cut = draw(st.one_of(st.none(), st.none(), st.floats(0.05, 0.95).map(lambda v: round(v, 3))))
+    if cd_cut is not None:
+        chain_kw['fiber_kw']['dispersion_slope'] = draw(st.sampled_from([59.0, 80.0, 45.0]))
     topo, truth = draw(netgen.topology(eq, n=(2, 3), extra_max=1, chain_kw=chain_kw, per_degree=False,
                                        per_degree_impairments=True))
     src = draw(st.integers(0, truth['n'] - 1))
@@ -59,7 +64,7 @@ def service_case(draw, auto):
     if not auto:
         spacing = max(spacing, modes[mode]['min_spacing'])
     return {'eq': eq, 'topo': topo, 'truth': truth, 'src': src, 'dst': dst, 'mode': mode, 'rel': rel,
-            'spacing': spacing, 'nch': draw(st.integers(4, 40)), 'bidir': draw(st.booleans())}
+            'spacing': spacing, 'nch': draw(st.integers(4, 40)), 'bidir': draw(st.booleans()), 'cd_cut': cd_cut}
 
 
 def own_penalty(table, value):
@@ -177,12 +182,18 @@ def check_receiver(ctx, case, eq_json, mode, path, direction):
     return float(np.min(own - pen))
 
 
-def build_eq(case, base_metric):
+def build_eq(case, base_metric, cd_values=None):
     eqj = copy.deepcopy(case['eq'])
     margins = eqj['SI'][0]['sys_margins']
     for m, rel in zip(eqj['Transceiver'][0]['mode'], case['rel']):
         b = base_metric if math.isfinite(base_metric) else 15.0
         m['OSNR'] = round(b + rel - margins, 2)
+        if case.get('cd_cut') is not None and cd_values is not None and max(cd_values) - min(cd_values) > 1e-3:
+            lo, hi = min(cd_values), max(cd_values)
+            cut = round(lo + case['cd_cut'] * (hi - lo), 4)
+            rows = [p for p in m.get('penalties', []) if 'chromatic_dispersion' not in p]
+            m['penalties'] = rows + [{'chromatic_dispersion': round(min(lo, 0.0) - 100.0, 4), 'penalty_value': 0},
+                                     {'chromatic_dispersion': cut, 'penalty_value': 0.5}]
     return eqj
 
 
@@ -203,8 +214,9 @@ def run(case, ctx):
                 ctx.label('skipped:no-path')
                 return
             base = receiver_metric(pr['path'][-1])
+            cd_values = [float(v) for v in pr['path'][-1].chromatic_dispersion]
         else:
-            base = 15.0
+            base, cd_values = 15.0, None
     except Exception as e:  # noqa: design/OMS failures are owned by C08/C15
         from pbt.runner import classify_exception
         where, sig = classify_exception(e)
@@ -212,7 +224,9 @@ def run(case, ctx):
             raise
         ctx.label('skipped:probe-failed:' + type(e).__name__)
         return
-    eqj = build_eq(case, base)
+    eqj = build_eq(case, base, cd_values)
+    if case.get('cd_cut') is not None and cd_values is not None and max(cd_values) - min(cd_values) > 1e-3:
+        ctx.label('cd-table-ends-inside-channel-range')
     margins = eqj['SI'][0]['sys_margins']
     modes = eqj['Transceiver'][0]['mode']
 
